@@ -6,8 +6,10 @@ import (
 	"crypto/ecdsa"
 	"errors"
 	"fmt"
+	"math"
 	"math/rand"
 	"net"
+	"net/netip"
 	"regexp"
 	"sort"
 	"strconv"
@@ -75,7 +77,13 @@ type tabRec struct {
 func signRec(key *ecdsa.PrivateKey, ip net.IP, port int, seq uint64) *enode.Node {
 	var r enr.Record
 	if ip != nil {
-		r.Set(enr.IP(ip))
+		if len(ip) == 16 && ip.To4() != nil {
+			// the same IPv4 endpoint announced in its v4-mapped IPv6 form (::ffff:a.b.c.d) in the ip6 field: enode keeps the
+			// mapped address, and its /24 is ::/24, not a.b.c.0/24
+			r.Set(enr.IPv6(ip))
+		} else {
+			r.Set(enr.IP(ip))
+		}
 	}
 	r.Set(enr.UDP(uint16(port)))
 	r.SetSeq(seq)
@@ -89,12 +97,31 @@ func signRec(key *ecdsa.PrivateKey, ip net.IP, port int, seq uint64) *enode.Node
 	return n
 }
 
+// ipText prints an address so that the v4-mapped form stays distinguishable from the plain one
+func ipText(a netip.Addr) string {
+	if !a.IsValid() {
+		return "none"
+	}
+	if a.Is4In6() {
+		return "m" + a.Unmap().String()
+	}
+	return a.String()
+}
+
 var netRe = regexp.MustCompile(`(\d+\.\d+\.\d+)\.0/24×(\d+)`)
+
+// every v4-mapped address lies in ::/24; the pseudo subnet name the driver understands for it
+var mappedNetRe = regexp.MustCompile(`::/24×(\d+)`)
+
+const mappedSubnet = "m0.0.0"
 
 func counters(s string, subnets []string) string {
 	m := map[string]string{}
 	for _, g := range netRe.FindAllStringSubmatch(s, -1) {
 		m[g[1]] = g[2]
+	}
+	if g := mappedNetRe.FindStringSubmatch(s); g != nil {
+		m[mappedSubnet] = g[1]
 	}
 	out := make([]string, len(subnets))
 	for i, sn := range subnets {
@@ -114,11 +141,7 @@ type tabState struct {
 }
 
 func (ts *tabState) node(v portalwire.VerifNode, withState bool) string {
-	ip := v.Node.IP()
-	ips := "none"
-	if ip != nil {
-		ips = ip.String()
-	}
+	ips := ipText(v.Node.IPAddr())
 	s := fmt.Sprintf("%d/%s/%d/%d", ts.idIdx[v.Node.ID()], ips, v.Node.UDP(), v.Node.Seq())
 	if withState {
 		live := 0
@@ -231,7 +254,7 @@ func tableSequence(o *Out, r *rand.Rand, seqNo, nOps int) {
 	if seqNo%4 == 3 {
 		subnets = []string{"34.1.7"} // crowd one subnet: the table-wide limit binds
 	}
-	ts := &tabState{tab: tab, idIdx: map[enode.ID]int{}, subnets: []string{"34.1.7", "34.1.8", "91.200.3"}}
+	ts := &tabState{tab: tab, idIdx: map[enode.ID]int{}, subnets: []string{"34.1.7", "34.1.8", "91.200.3", mappedSubnet}}
 	o.Case(fmt.Sprintf("tabinit self=%x subnets=%s initdone=%d", self.ID().Bytes(), strings.Join(ts.subnets, ","), b2i(!preInit)), "ok")
 	nIds := 90
 	if seqNo%3 == 1 {
@@ -258,6 +281,9 @@ func tableSequence(o *Out, r *rand.Rand, seqNo, nOps int) {
 		case c < 7:
 			sn := subnets[r.Intn(len(subnets))]
 			ip = net.ParseIP(fmt.Sprintf("%s.%d", sn, 1+r.Intn(250))).To4()
+			if r.Intn(7) == 0 {
+				ip = ip.To16() // announced in the v4-mapped form
+			}
 		case c < 9:
 			ip = net.IP{192, 168, byte(r.Intn(3)), byte(1 + r.Intn(200))}
 		case c == 9:
@@ -276,6 +302,10 @@ func tableSequence(o *Out, r *rand.Rand, seqNo, nOps int) {
 		}
 		port := 30000 + r.Intn(4)
 		seq := uint64(1 + r.Intn(3))
+		if r.Intn(9) == 0 {
+			// sequence numbers at the ends of their 64-bit range: nothing is "newer" than the largest one
+			seq = []uint64{0, math.MaxUint64, math.MaxUint64, math.MaxUint64 - 1, 1 << 63, 1<<63 - 1, 1 << 32}[r.Intn(7)]
+		}
 		// a newer record of a known id that keeps its address: only the port moves, or only the sequence number
 		if r.Intn(4) == 0 {
 			for k := len(recs) - 1; k >= 0; k-- {
@@ -284,6 +314,16 @@ func tableSequence(o *Out, r *rand.Rand, seqNo, nOps int) {
 					seq = recs[k].seq + uint64(r.Intn(2))
 					if r.Intn(3) == 0 {
 						port = recs[k].port
+						seq = recs[k].seq + 1
+					}
+					// the same endpoint re-announced in the other form (plain <-> v4-mapped): a different address for
+					// every rule of the table, and another /24
+					if ip.To4() != nil && !netutil.IsLAN(ip) && r.Intn(3) == 0 {
+						if len(ip) == 16 {
+							ip = ip.To4()
+						} else {
+							ip = ip.To16()
+						}
 						seq = recs[k].seq + 1
 					}
 					break
@@ -295,7 +335,7 @@ func tableSequence(o *Out, r *rand.Rand, seqNo, nOps int) {
 		k := len(recs) - 1
 		ips, lan := "none", 0
 		if ip != nil {
-			ips = ip.String()
+			ips = ipText(n.IPAddr())
 			if netutil.IsLAN(ip) {
 				lan = 1
 			}
